@@ -179,7 +179,8 @@ impl Sched {
             };
             if next != me {
                 g.switches += 1;
-                g.sched_hash = (g.sched_hash ^ (next as u64 + 1)).wrapping_mul(0x0000_0100_0000_01B3);
+                // fingerprint of the interleaving: who got the baton and at which scheduler step
+                g.sched_hash = (g.sched_hash ^ (next as u64 + 1) ^ (g.steps << 8)).wrapping_mul(0x0000_0100_0000_01B3);
             }
             g.current = Some(next);
             if next == me {
